@@ -6,6 +6,9 @@ CONSTANTS
   Wipes = {}
   Variants = {"asis", "fixed"}
   Cuts = TRUE
+  SectorSize = 32
+  MaxFaults = 1
+  MaxRetry = 1
   Kinds = {"T2", "T1S", "T1D", "T512"}
   Sizes = {3, 4, 5}
   Pads = {0, 1, 2, 3, 4, 5, 6, 7}
@@ -18,4 +21,5 @@ CONSTANTS
   OldLens = {0, 1, 4, 5, 9}
 INVARIANT FxAtomic
 INVARIANT AtomicButStraddle
+INVARIANT Coherent
 CHECK_DEADLOCK FALSE
